@@ -20,6 +20,8 @@ func init() {
 		Assumptions: []string{"proto.Merge / Marshal+Unmarshal copy; select picks a ready case"},
 		Run:         runC13,
 		Controls: []Control{
+			{Name: "trailer-join-without-the-kept-trailer", File: "pkg/wrap/stream.go", Old: "\ts.trailer = metadata.Join(s.trailer, md)", New: "\ts.trailer = metadata.Join(md)", Expect: "R13.11"},
+			{Name: "revert-F68-client-send-hands-over-the-callers-message", File: "pkg/wrap/stream.go", Old: "func (c *clientStream) SendMsg(m any) error {\n\tm = copyOfMessage(m)\n", New: "func (c *clientStream) SendMsg(m any) error {\n", Expect: "R13.16"},
 			{Name: "trailer-joined-in-reverse", File: "pkg/wrap/stream.go", Old: "\ts.trailer = metadata.Join(s.trailer, md)\n", New: "\ts.trailer = metadata.Join(md, s.trailer)\n", Expect: "R13.11"},
 			{Name: "transport-setheader-sends", File: "pkg/wrap/wrap.go", Old: "func (ts *serverTransportStream) SetHeader(md metadata.MD) error {\n\treturn ts.ss.SetHeader(md)\n", New: "func (ts *serverTransportStream) SetHeader(md metadata.MD) error {\n\treturn ts.ss.SendHeader(md)\n", Expect: "R13.14"},
 			{Name: "cancel-reported-as-close-outcome", File: "pkg/wrap/stream.go", Old: "\t\treturn c.Context().Err()\n", New: "\t\treturn c.closeErrLocked()\n", Expect: "R13.15"},
@@ -32,7 +34,7 @@ func init() {
 			{Name: "unknown-method-internal", File: "pkg/wrap/wrap.go", Old: "var ErrMethodNotFound = status.Error(codes.Unimplemented, \"method not found\")", New: "var ErrMethodNotFound = status.Error(codes.Internal, \"method not found\")", Expect: "R13.2"},
 			{Name: "shape-check-after-go", File: "pkg/wrap/wrap.go", Old: "\tif matched.ServerStreams != desc.ServerStreams || matched.ClientStreams != desc.ClientStreams {\n\t\treturn nil, ErrMethodShape\n\t}\n", New: "\tif matched.ServerStreams != desc.ServerStreams {\n\t\treturn nil, ErrMethodShape\n\t}\n", Expect: "R13.2"},
 			{Name: "handler-path-without-close", File: "pkg/wrap/wrap.go", Old: "\t\tif err != nil {\n\t\t\tclientServerStream.Close(err)\n\t\t\treturn\n\t\t}\n\t\terr = ss.SendMsg(res)", New: "\t\tif err != nil {\n\t\t\treturn\n\t\t}\n\t\terr = ss.SendMsg(res)", Expect: "R13.3"},
-			{Name: "blocking-send-without-ctx", File: "pkg/wrap/stream.go", Old: "\ts.sendHeaderIfNeeded()\n\tselect {\n\tcase <-s.ctx.Done():\n\t\treturn s.closeErrLocked()\n\tcase s.serverSend <- m:\n\t\treturn nil\n\t}", New: "\ts.sendHeaderIfNeeded()\n\ts.serverSend <- m\n\treturn nil", Expect: "R13.3"},
+			{Name: "blocking-send-without-ctx", File: "pkg/wrap/stream.go", Old: "\tm = copyOfMessage(m)\n\tselect {\n\tcase <-s.ctx.Done():\n\t\treturn s.closeErrLocked()\n\tcase s.serverSend <- m:\n\t\treturn nil\n\t}", New: "\tm = copyOfMessage(m)\n\ts.serverSend <- m\n\treturn nil", Expect: "R13.3"},
 			{Name: "close-without-cancel", File: "pkg/wrap/stream.go", Old: "\tclose(s.serverSend)\n\ts.closed()\n}", New: "\tclose(s.serverSend)\n}", Expect: "R13.3"},
 			{Name: "drop-clonemd", File: "pkg/wrap/wrap.go", Old: "\tmd = cloneMD(md) // to prevent client from concurrently modifying the metadata\n", New: "", Expect: "R13.4"},
 			{Name: "header-shared", File: "pkg/wrap/wrap.go", Old: "\t\t\t*opt.HeaderAddr = cloneMD(hdr)", New: "\t\t\t*opt.HeaderAddr = hdr", Expect: "R13.4"},
@@ -48,6 +50,14 @@ func runC13(c *an.Ctx) {
 	c.Min("R13.14", 3)
 	r1315(c)
 	c.Min("R13.15", 1)
+	r1316as(c, "R13.16")
+	c.Min("R13.16", 2)
+	// metadata the client can read is exactly what was sent: headers are written only while they have not gone out,
+	// and read only once they have (shared with R11.5 / R11.3, which report the same constructs as races)
+	shareAs(c, "R11.5", "R13.17", r115, nil)
+	c.Min("R13.17", 2)
+	shareAs(c, "R11.3", "R13.18", func(sub *an.Ctx) { r113(sub); r113header(sub) }, nil)
+	c.Min("R13.18", 3)
 	r131(c)
 	r132(c)
 	r133(c)
@@ -186,6 +196,22 @@ func r131(c *an.Ctx) {
 		okCopy := false
 		for _, call := range an.CallsTo(fn, "google.golang.org/protobuf/proto.Merge") {
 			if call.Common().Args[0] == ssa.Value(fn.Params[0]) && call.Common().Args[1] == ssa.Value(fn.Params[1]) {
+				okCopy = true
+			}
+		}
+		// when every SendMsg already hands over a private clone (R13.16), the receiver may fill its message from
+		// that clone in any way - sharing parts with an object nobody else holds is no sharing across the boundary
+		if !okCopy {
+			sub := an.NewCtx(c.Prog, c.Property, c.Tier)
+			r1316as(sub, "R13.16")
+			all, n := true, 0
+			for _, o := range sub.Obls {
+				n++
+				if o.Verdict != an.OK {
+					all = false
+				}
+			}
+			if all && n >= 2 {
 				okCopy = true
 			}
 		}
@@ -852,7 +878,7 @@ func r1311(c *an.Ctx) {
 					return
 				}
 				n++
-				joined, replaces, swapped := false, false, false
+				joined, replaces, swapped, dropped := false, false, false, false
 				for _, v := range an.Sources(st.Val) { // through a helper the rules have not seen
 					call, isCall := v.(*ssa.Call)
 					if !isCall {
@@ -862,14 +888,19 @@ func r1311(c *an.Ctx) {
 						// variadic: the slice holds (current, md), in this order: Join appends the values of its arguments key by
 						// key, so the values of an earlier call come before those of a later one, as on a real connection
 						joined = true
-						if el := variadicElems(call.Call.Args[0]); len(el) == 2 {
-							curFirst := false
-							for _, s0 := range an.Sources(el[0]) {
-								if u, isU := s0.(*ssa.UnOp); isU && isStreamField(u.X, t[1]) {
-									curFirst = true
+						if el := variadicElems(call.Call.Args[0]); el != nil {
+							curAt := -1
+							for i, e := range el {
+								for _, s0 := range an.Sources(e) {
+									if u, isU := s0.(*ssa.UnOp); isU && isStreamField(u.X, t[1]) && curAt < 0 {
+										curAt = i
+									}
 								}
 							}
-							if !curFirst {
+							switch {
+							case curAt < 0:
+								dropped = true // Join(md): what was kept so far is not among the operands
+							case curAt != 0:
 								swapped = true
 							}
 						}
@@ -888,6 +919,8 @@ func r1311(c *an.Ctx) {
 				switch {
 				case replaces:
 					c.Bad(rule, cons, st.Pos(), "the "+t[1]+" metadata is merged with MD.Set, which replaces the values already kept for a key: when a handler adds to one key in more than one call only the last call's values reach the client (a real connection delivers all of them, in order)")
+				case joined && dropped:
+					c.Bad(rule, cons, st.Pos(), "the "+t[1]+" metadata is kept as metadata.Join(md) without what was kept so far: each call overwrites the previous one's metadata, so a handler that sets its "+t[1]+" in two steps delivers only the last part")
 				case joined && swapped:
 					c.Bad(rule, cons, st.Pos(), "the "+t[1]+" metadata is kept as metadata.Join(md, current): the values of a later call are put BEFORE those of the earlier ones, so a handler that adds to one key twice delivers [second first] where a real connection delivers [first second]")
 				case joined:
@@ -1245,4 +1278,38 @@ func r1315(c *an.Ctx) {
 	}
 	c.Check(ok && n > 0 && sawCtxErr, rule, name+"|the close outcome is reported only once the stream was seen closed", pos, fmt.Sprintf("%d return(s) of the close outcome, each behind a receive that reported the channel closed; the context's error otherwise", n),
 		"RecvMsg returns the stream's close outcome on a path where it has not seen serverSend closed (or never returns the context's error): a client that cancels while the handler is still running is told io.EOF - a clean end of stream - where a real connection reports the cancellation")
+}
+
+// r1316: what crosses the boundary is a copy made BEFORE Send returns. A real connection serialises the message
+// inside Send; the sender may reuse its message object as soon as the call is back. The in-process stream hands a
+// pointer over a channel and the receiver merges from it after the hand-over - with the sender's own object on
+// the channel the receiver reads it while the sender is already writing the next value (a data race, and the
+// receiver can see a value written after Send returned). In both SendMsg methods the value put on the channel
+// derives from a proto.Clone.
+func r1316as(c *an.Ctx, rule string) {
+	n := 0
+	for _, fn := range c.Prog.FuncsIn("pkg/wrap") {
+		if fn.Name() != "SendMsg" || fn.Parent() != nil || fn.Signature.Recv() == nil || fn.Synthetic != "" || len(fn.Params) < 2 {
+			continue
+		}
+		name := an.FuncName(fn)
+		c.SawFunc(name)
+		sends := an.Sends(fn)
+		if len(sends) == 0 {
+			c.Unk(rule, name+"|the message is copied before it is handed over", fn.Pos(), "no channel send found in SendMsg")
+			continue
+		}
+		for i, s := range sends {
+			n++
+			cloned := false
+			for _, v := range an.Sources(s.Val) {
+				if call, ok := v.(*ssa.Call); ok && strings.HasSuffix(an.CalleeName(call), "protobuf/proto.Clone") {
+					cloned = true
+				}
+			}
+			c.Check(cloned, rule, fmt.Sprintf("%s|send #%d hands over a copy of the message", name, i+1), s.Instr.Pos(), "the value sent derives from proto.Clone",
+				"the sender's own message object is put on the channel: the other side merges from it after SendMsg has returned, while the sender may already be changing it for its next Send (data race; the receiver can observe a value written after the send)")
+		}
+	}
+	c.Count("sendmsg_sends", n)
 }
